@@ -392,7 +392,9 @@ def compDispLoop : List Nat → List (Option Int) → State → List (Option Int
   | r :: rs, acc, s =>
     let m := s.obj r
     let cand := setdiff (uniqueLabels m.labels) (acc.filterMap id)
-    if cand.isEmpty then compDispLoop rs (acc ++ [none]) s
+    if cand.isEmpty then
+      -- no particle left for this member: its (possibly pre-selected) target is dropped, nothing is attempted
+      compDispLoop rs (acc ++ [none]) (s.setObj r { m with toDisplace := none })
     else
       let (l, i) := choice cand 0 s.inp
       let s1 := ({ s with inp := i }).setObj r { m with toDisplace := some l }
